@@ -8,7 +8,7 @@ PROPS["C13"] = {
             "provisional-name collisions (same name, different content); fed to syntax.Expand and to the model, outputs compared exactly (names, order after "
             "Rearrange, rule trees); c13.tm: the same generator restricted to constructs with a plain textual form, printed as .tm text and compiled by "
             "compiler.Compile, grammar.Parser.Rules read back; both judged by the language oracle (all words up to length 3-5 over all terminals, every original "
-            "nonterminal); distinct = distinct input text, non-trivial = at least 20 tree nodes",
+            "nonterminal); distinct = distinct input text, non-trivial = at least 20 tree nodes; c13.tm spells every second nonterminal with several rules partly through an 'extend' clause (the first rule or all but the last stay in the base definition)",
     "modelled": "syntax/expand.go: Expand (both phases), expandRule, expandExpr, extractNonterm (ProvisionalName, Equal, name_N suffixes), sortTail, "
                 "concat/multiConcat/collapseEmpty, list and optional rule synthesis; syntax/syntax.go: Expr.Equal, Model.Rearrange; util/ident.Produce (C28 model) inside ProvisionalName; "
                 "DefaultExpandOptions and untyped symbols (no synthesised list/optional commands), group = 0 (models not produced by Instantiate)",
